@@ -334,8 +334,10 @@ def check(args):
     for u in units:
         cs = reg.contracts[u].canaries
         n = len(cs) if tier == 'thorough' else min(1, len(cs))
-        if tier == 'quick' and getattr(reg.contracts[u].cls, 'slow_canaries', False):
-            n = 0          # re-verifying a mutant of this unit exceeds the quick tier's per-job limit: thorough tier only
+        if getattr(reg.contracts[u].cls, 'slow_canaries', False):
+            n = 0          # re-verifying a mutant of this unit exceeds the per-job limit in both tiers (the exploration of
+            #                the mutated body does not finish): its canaries are kept as documentation only; the unit is
+            #                still guarded by the CPython cross-check and the native sampling of its contract
         for i in range(n):
             jobs.append(('canary', (u, (i + seed) % len(cs) if tier == 'quick' else i), opts))
     for name, meta in bounded.META.items():
